@@ -88,7 +88,7 @@ def is_single(dt):
     return np.dtype(dt) in (np.dtype("float32"), np.dtype("complex64"))
 
 
-def dtype_ok(got, want):
+def dtype_ok(got, want, single=False):
     """`got`: dtype reported by the library; `want`: model array (NumPy promotion of the operands).
     Violated if the reported dtype cannot hold the model value: real where the model has a non-zero imaginary part
     (a silently dropped imaginary part), or a lower precision than NumPy promotion gives. A real zero for a complex zero
@@ -99,6 +99,8 @@ def dtype_ok(got, want):
         return False
     if want.dtype.kind == "c" and got.kind != "c" and np.any(want.imag != 0):
         return False
+    if single:
+        return True   # single-precision operands: the library computes in the operator's precision (only a dropped imaginary part counts)
     prec = {"float32": 4, "complex64": 4, "float64": 8, "complex128": 8}
     return prec.get(got.name, 16) >= prec.get(want.dtype.name, 8)
 
@@ -271,8 +273,8 @@ class Env:
         ctx.note("pool_spaces", {k: {"key": list(map(str, v.key)), "dofs": v.n} for k, v in self.sp.items()})
         ctx.lap("spaces")
 
-        def B(name, family, op, dom, ran, dual, k=None, feat=()):
-            lib = O.boundary(api, family, op, S[dom], S[ran], S[dual], k=k, parameters=par)
+        def B(name, family, op, dom, ran, dual, k=None, feat=(), **kw):
+            lib = O.boundary(api, family, op, S[dom], S[ran], S[dual], k=k, parameters=par, **kw)
             return self.bop_leaf(name, lib, dom, ran, dual, feat)
 
         B("V_dpp", "laplace", "single_layer", "d", "p", "p")
@@ -300,6 +302,8 @@ class Env:
         B("I_qd", "sparse", "identity", "qd", "qd", "qd")
         B("V_qdq", "laplace", "single_layer", "qd", "q", "q")  # domain differs from K_q only (equal size)
         B("I_qd_q_qd", "sparse", "identity", "qd", "q", "qd")
+        # a real operator assembled in SINGLE precision (float32 dense matrix): it too acts on real and imaginary parts
+        B("V_ddd_s", "laplace", "single_layer", "d", "d", "d", assembler="dense", precision="single")
         ctx.lap("boundary operators (assembly + jit)")
 
         L = {k[2:]: v.lib for k, v in self.leaves.items() if k.startswith("b:")}
@@ -338,7 +342,7 @@ class Env:
                                                                       ZeroDiscreteBoundaryOperator)
 
         W = {k[2:]: v.m["W"] for k, v in self.leaves.items() if k.startswith("b:")}
-        for nm in ("K_ppp", "H_ppp", "V_dpp", "I_ppp", "I_dpp", "I_pdd", "H_ddd", "K_q"):
+        for nm in ("K_ppp", "H_ppp", "V_dpp", "I_ppp", "I_dpp", "I_pdd", "H_ddd", "K_q", "V_ddd_s"):
             self.dop_leaf("w_" + nm, L[nm].weak_form(), W[nm])
         self.dop_leaf("inv_pp", InverseSparseDiscreteBoundaryOperator(L["I_ppp"].weak_form()), np.linalg.inv(W["I_ppp"]))
         self.dop_leaf("inv_dd", InverseSparseDiscreteBoundaryOperator(L["I_ddd"].weak_form()), np.linalg.inv(W["I_ddd"]))
@@ -819,7 +823,7 @@ class Observer:
             raise Failure(what + ":shape", "%s: shape %s, model %s" % (what, got.shape, want.shape))
         if got.size != want.size:
             raise Failure(what + ":shape", "%s: size %s, model %s" % (what, got.shape, want.shape))
-        if dtype_check and not dtype_ok(got.dtype, want):
+        if dtype_check and not dtype_ok(got.dtype, want, single=self.v.single):
             raise Failure(what + ":dtype", "%s: dtype %s, NumPy promotion of the operands gives %s" % (what, got.dtype, want.dtype))
         d = frob(got.reshape(want.shape) - want)
         scale = max(float(mag), 1e-300)
